@@ -24,6 +24,8 @@ enum S {
     If(Vec<(usize, bool, Vec<S>)>, Vec<S>),
     For(usize, Vec<i64>, bool, Vec<S>, Vec<S>),
     ForStr(usize, String, Vec<S>, Vec<S>),
+    /// key/value loop over a map literal of 0 or 1 entries (order-free): (key var, value var, entry, body, else)
+    ForKV(usize, usize, Option<(String, i64)>, Vec<S>, Vec<S>),
     Break(usize),
     Continue(usize),
     SetBlock(usize, u8, Vec<S>),
@@ -67,6 +69,15 @@ fn gen_body(r: &mut Rng, g: &GenCx) -> Vec<S> {
                 S::For(r.below(5), (0..len).map(|_| r.below(4) as i64).collect(), r.chance(1, 4), gen_body(r, &sub(true, false)), if r.chance(1, 3) { gen_body(r, &sub(g.in_loop, g.in_cap)) } else { vec![] })
             }
             10 if g.d > 0 => S::ForStr(r.below(5), r.pick(&["", "q", "é日", "a😀b"]).to_string(), gen_body(r, &sub(true, false)), if r.chance(1, 3) { gen_body(r, &sub(g.in_loop, g.in_cap)) } else { vec![] }),
+            18 if g.d > 0 => {
+                let kv = r.below(5);
+                let mut vv = r.below(5);
+                if vv == kv {
+                    vv = (vv + 1) % 5;
+                }
+                let entry = if r.chance(1, 4) { None } else { Some((r.pick(&["mk", "k2", ""]).to_string(), r.below(4) as i64)) };
+                S::ForKV(kv, vv, entry, gen_body(r, &sub(true, false)), if r.chance(1, 3) { gen_body(r, &sub(g.in_loop, g.in_cap)) } else { vec![] })
+            }
             11 if g.in_loop && !g.in_cap => {
                 if r.bool() {
                     S::Break(r.below(5))
@@ -126,6 +137,19 @@ fn pr(b: &[S], out: &mut String) {
                 }
                 out.push_str("{% endfor %}");
             }
+            S::ForKV(kn, vn, entry, body, els) => {
+                let lit = match entry {
+                    Some((k, v)) => format!("{{\"{k}\": {v} }}"),
+                    None => "{}".to_string(),
+                };
+                out.push_str(&format!("{{% for {}, {} in {lit} %}}", NAMES[*kn], NAMES[*vn]));
+                pr(body, out);
+                if !els.is_empty() {
+                    out.push_str("{% else %}");
+                    pr(els, out);
+                }
+                out.push_str("{% endfor %}");
+            }
             S::Break(n) => out.push_str(&format!("{{% if {} %}}{{% break %}}{{% endif %}}", NAMES[*n])),
             S::Continue(n) => out.push_str(&format!("{{% if {} %}}{{% continue %}}{{% endif %}}", NAMES[*n])),
             S::SetBlock(n, chain, b) => {
@@ -172,6 +196,7 @@ impl V {
 
 struct Loop {
     var: usize,
+    key: Option<(usize, V)>,
     cur: V,
     locals: BTreeMap<usize, V>,
     idx: usize,
@@ -195,6 +220,11 @@ impl<'p> St<'p> {
             }
             if l.var == n {
                 return Some(l.cur.clone());
+            }
+            if let Some((kn, kv)) = &l.key {
+                if *kn == n {
+                    return Some(kv.clone());
+                }
             }
         }
         if let Some(v) = self.sets.get(&n) {
@@ -244,7 +274,7 @@ fn run_loop(st: &mut St, out: &mut Vec<String>, tpls: &[Vec<S>], var: usize, ite
         return run(els, st, out, tpls);
     }
     let len = items.len();
-    st.loops.push(Loop { var, cur: V::I(0), locals: BTreeMap::new(), idx: 0, len });
+    st.loops.push(Loop { var, key: None, cur: V::I(0), locals: BTreeMap::new(), idx: 0, len });
     for (i, x) in items.into_iter().enumerate() {
         {
             let l = st.loops.last_mut().unwrap();
@@ -320,6 +350,17 @@ fn run(b: &[S], st: &mut St, out: &mut Vec<String>, tpls: &[Vec<S>]) -> Flow {
                     f => return f,
                 }
             }
+            S::ForKV(kn, vn, entry, body, els) => match entry {
+                None => match run(els, st, out, tpls) {
+                    Flow::Normal => {}
+                    f => return f,
+                },
+                Some((k, v)) => {
+                    st.loops.push(Loop { var: *vn, key: Some((*kn, V::S(k.clone()))), cur: V::I(*v), locals: BTreeMap::new(), idx: 0, len: 1 });
+                    let _ = run(body, st, out, tpls);
+                    st.loops.pop();
+                }
+            },
             S::Break(n) => {
                 if st.get(*n).map(|v| v.truthy()).unwrap_or(false) {
                     return Flow::Break;
@@ -392,6 +433,10 @@ fn nesting_signature(b: &[S], path: &str, out: &mut Vec<String>) {
                     nesting_signature(body, &format!("{path}/if"), out);
                 }
                 nesting_signature(e, &format!("{path}/else"), out);
+            }
+            S::ForKV(_, _, _, body, els) => {
+                nesting_signature(body, &format!("{path}/for-kv"), out);
+                nesting_signature(els, &format!("{path}/for-else"), out);
             }
             S::For(_, _, _, body, els) | S::ForStr(_, _, body, els) => {
                 nesting_signature(body, &format!("{path}/for"), out);
@@ -554,7 +599,7 @@ pub fn run_prop(cx: &mut Cx) {
                             b.iter().any(|s| {
                                 f(s) || match s {
                                     S::If(br, e) => br.iter().any(|(_, _, x)| any(x, f)) || any(e, f),
-                                    S::For(_, _, _, x, y) | S::ForStr(_, _, x, y) => any(x, f) || any(y, f),
+                                    S::For(_, _, _, x, y) | S::ForStr(_, _, x, y) | S::ForKV(_, _, _, x, y) => any(x, f) || any(y, f),
                                     S::SetBlock(_, _, x) | S::Filt(_, x) => any(x, f),
                                     _ => false,
                                 }
